@@ -48,6 +48,9 @@ func (d *typeDictionary) add(n Node, name string, td *Typedef) {
 		d.dict[n] = map[string]*Typedef{}
 	}
 	d.dict[n][name] = td
+	if verifEnabled {
+		verifEmit("typedict.add", "node", n.Kind()+" "+n.NName(), "at", Source(n), "typedef", name)
+	}
 }
 
 // merge adds all entries of o to d.
